@@ -1,6 +1,7 @@
 #!/usr/bin/env python3
 """usage: mkcatch.py <seedall log>  — writes /verif/seeded/CATCH.md (one row per seeded change)
 and updates detected_by in each meta.json."""
+KNOWN=[w[4:] for ln in open('/verif/known_findings.txt') if ln.startswith('finding:') for w in ln.split() if w.startswith('sig=')]
 import sys, re, json, os
 rows=[]
 for ln in open(sys.argv[1], errors='replace'):
@@ -10,6 +11,7 @@ for ln in open(sys.argv[1], errors='replace'):
     det=[]
     for chk, rc, nv, sigs in re.findall(r'== (C\d\d) rc=(\d+): (\d+) violation lines;\s*(?:INCONCLUSIVE[^s]*)?sigs:(.*?)(?= == |$)', rest):
         s=re.findall(r'sig=([^;\s]+)', sigs)
+        s=[x for x in s if not any(x.startswith(k[:45]) for k in KNOWN)]  # the listed known findings are not what catches a change
         if int(nv)>0: det.append((chk, s[:3]))
     rows.append((sid, conf, det))
 out=['# Seeded changes and the checks that catch them','',
